@@ -100,3 +100,48 @@ def discharge(ob, timeout_ms=20000, cvc5=True, both=False):
             pass
     ob.time = time.time() - t0
     return ob
+
+
+def solve_smt2(o, timeout_ms=20000, cvc5=True, both=False):
+    """discharge one obligation given as SMT-LIB2 text (dict in / dict out; runs in a pool worker)"""
+    t0 = time.time()
+    smt2 = o.pop('smt2')
+    s = z3.Solver()
+    s.set('timeout', timeout_ms)
+    s.from_string(smt2)
+    r = s.check()
+    o['backend'] = 'z3'
+    if o['kind'] == 'cover':
+        o['status'] = 'proved' if r == z3.sat else ('vacuous' if r == z3.unsat else 'proved')
+        if r == z3.unknown:
+            o['cover_unknown'] = True
+        o['time'] = round(time.time() - t0, 4)
+        return o
+    if r == z3.unsat:
+        o['status'] = 'proved'
+    elif r == z3.sat:
+        o['status'] = 'refuted'
+        o['goal'] = smt2[-1500:]
+        try:
+            o['model'] = model_to_json(s.model())
+        except Exception:
+            o['model'] = None
+    else:
+        o['status'] = 'unknown'
+        o['goal'] = smt2[-1500:]
+        o['reason'] = s.reason_unknown()
+        if cvc5 and os.path.exists(CVC5) and 'lambda' not in smt2:
+            res = run_cvc5(smt2, max(timeout_ms / 1000.0, 5))
+            if res == 'unsat':
+                o['status'] = 'proved'
+                o['backend'] = 'cvc5'
+            elif res == 'sat':
+                o['status'] = 'refuted'
+                o['backend'] = 'cvc5'
+    if both and o['status'] == 'proved' and o['backend'] == 'z3' and os.path.exists(CVC5) and 'lambda' not in smt2:
+        res = run_cvc5(smt2, max(timeout_ms / 1000.0, 5))
+        o['cross'] = res
+        if res == 'sat':
+            o['status'] = 'disagree'
+    o['time'] = round(time.time() - t0, 4)
+    return o
